@@ -375,33 +375,66 @@ def TaOK (via : Bool) : GoTy → GoVal → Bool
 /-! ### flat structs through a derived object type
 
   reflector.go  TypeFromReflect / InitializerFromTagged / ReflectFieldTags → `Field` (attribute name = tag `name` or the
-                first-to-lower Go name; attribute type = `typeOf`; a pointer field is Optional with the implicit value undef)
-  objecttype.go createAttributesInfo (required attributes first, then those with a value)       → `attrOrder`
-  objectvalue.go reflectedObject.Get / InitHash (`wrapReflected` of the field; an optional attribute whose value equals
-                its default is omitted)                                                          → `fieldVal`, `initHash`
-  objecttype.go createNewFunction: the named-argument dispatch checks the init hash against the init Struct type, the
-                positional one checks every argument against its attribute type                  → `newNamed`, `newPos`
-  objectvalue.go setValues (`ReflectTo` of every value into its field, a missing one is undef)   → `newNamed`, `newPos`
-  Flat = the field types are struct-free modelled types and no field is itself an interface{} (such a field wraps to a
-  Runtime value: not modelled). -/
+                first-to-lower Go name; attribute type = `typeOf`; tag `value=>X` declares the default X; a pointer field
+                without one is Optional with the implicit default undef)                          → `Field.default`
+  attribute.go  HasValue / Default(v) = `value != nil && value.Equals(v)`                         → `Field.isOpt`, `Field.isDefault`
+  objecttype.go createAttributesInfo (required attributes first, then those with a value)        → `attrOrder`
+  objectvalue.go reflectedObject.Get / InitHash (`wrapReflected` of the field; an attribute whose value equals its
+                default is omitted)                                                               → `fieldVal`, `initHash`
+  objecttype.go createNewFunction: the named-argument dispatch checks the hash against the init Struct type (an attribute
+                with a value may be absent, no unknown keys), the positional one takes the required attributes and any
+                prefix of the optional ones, each checked against its attribute type              → `namedCheck`, `posCheck`
+  attributesinfo.go PositionalFromHash: one value per attribute, a missing one is its default (fillValueSlice), then the
+                trailing values that equal their default are cut off (the loop's lower bound RequiredCount is implied:
+                a required attribute has no default)                                              → `fillFromHash`, `trimDefaults`
+  objectvalue.go setValues: attribute i gets values[i], or — when the slice is shorter — its declared default (else
+                undef), each by `ReflectTo` into the field of that Go name                        → `restore`, `setValues`
+  objectvalue.go reflectedObject.ReflectTo (the struct itself)                                    → `structOf`
+  Flat = the field types are struct-free modelled types, no field is itself an interface{} (such a field wraps to a
+  Runtime value: not modelled), declared defaults are integers, strings or booleans. -/
 
 structure Field where
   name : String
   ty : GoTy
+  dflt : Option Val := none
   deriving Repr, Inhabited
 
-def Field.isOpt (f : Field) : Bool := match f.ty with | .ptr _ => true | _ => false
+/-- the attribute's value (`HasValue`): the declared default, else the implicit undef of a pointer field -/
+def Field.default (f : Field) : Option Val :=
+  match f.dflt with
+  | some d => some d
+  | none => match f.ty with
+    | .ptr _ => some .undef
+    | _ => none
 
-def Val.isUndef : Val → Bool | .undef => true | _ => false
+def Field.isOpt (f : Field) : Bool := f.default.isSome
+
+/-- `Value.Equals` between a declared default (integer / string / boolean / undef) and a value -/
+def scalarEq : Val → Val → Bool
+  | .int a, .int b => a == b
+  | .str a, .str b => a == b
+  | .bool a, .bool b => a == b
+  | .undef, .undef => true
+  | _, _ => false
+
+/-- `attr.Default(v)` -/
+def Field.isDefault (f : Field) (v : Val) : Bool :=
+  match f.default with
+  | some d => scalarEq d v
+  | none => false
 
 def fieldVal (fv : Field × GoVal) : Val := wrap false fv.1.ty fv.2
 
-def attrOrder {α : Type} (fs : List (Field × α)) : List (Field × α) :=
-  fs.filter (fun x => !x.1.isOpt) ++ fs.filter (fun x => x.1.isOpt)
+def attrOrder {α : Type} (p : α → Field) (l : List α) : List α :=
+  l.filter (fun x => !(p x).isOpt) ++ l.filter (fun x => (p x).isOpt)
 
 def initHash (fvs : List (Field × GoVal)) : List (Val × Val) :=
-  (attrOrder fvs).filterMap fun fv =>
-    if fv.1.isOpt && (fieldVal fv).isUndef then none else some (.str fv.1.name, fieldVal fv)
+  (attrOrder (·.1) fvs).filterMap fun fv =>
+    if fv.1.isDefault (fieldVal fv) then none else some (.str fv.1.name, fieldVal fv)
+
+/-- the hash with every attribute given -/
+def fullHash (fvs : List (Field × GoVal)) : List (Val × Val) :=
+  (attrOrder (·.1) fvs).map fun fv => (.str fv.1.name, fieldVal fv)
 
 def lookupAttr (n : String) : List (Val × Val) → Option Val
   | [] => none
@@ -413,26 +446,78 @@ def knownKey (fs : List Field) : Val → Bool
   | .str s => fs.any fun f => f.name = s
   | _ => false
 
-/-- init Struct type, one member: a given value must be an instance of the attribute type, only an optional attribute
+/-- init Struct type, one member: a given value must be an instance of the attribute type, only an attribute with a value
     may be absent -/
 def attrCheck (ih : List (Val × Val)) (f : Field) : Bool :=
   match lookupAttr f.name ih with
   | some w => inst (typeOf f.ty) w
   | none => f.isOpt
 
-/-- `px.New(T, initHash)` through the named-argument dispatch, then `ReflectTo` into a fresh struct: the field values in
-    declaration order, `none` when the init hash is not an instance of the init Struct type -/
+def namedCheck (fs : List Field) (ih : List (Val × Val)) : Bool :=
+  fs.all (attrCheck ih) && ih.all (fun kv => knownKey fs kv.1)
+
+def allZip {α β : Type} (p : α → β → Bool) : List α → List β → Bool
+  | a :: as, b :: bs => p a b && allZip p as bs
+  | _, _ => true
+
+/-- positional dispatch: all required attributes, then any prefix of the optional ones; every argument is checked -/
+def posCheck (attrs : List Field) (args : List Val) : Bool :=
+  (attrs.filter (fun f => !f.isOpt)).length ≤ args.length && args.length ≤ attrs.length &&
+  allZip (fun f w => inst (typeOf f.ty) w) attrs args
+
+def fillFromHash (attrs : List Field) (ih : List (Val × Val)) : List Val :=
+  attrs.map fun f => (lookupAttr f.name ih).getD (f.default.getD .undef)
+
+def trimDefaults : List Field → List Val → List Val
+  | a :: as, v :: vs =>
+    let r := trimDefaults as vs
+    if r.isEmpty && a.isDefault v then [] else v :: r
+  | _, _ => []
+
+def restore : List Field → List Val → List Val
+  | [], _ => []
+  | a :: as, [] => a.default.getD .undef :: restore as []
+  | _ :: as, v :: vs => v :: restore as vs
+
+def zipFV : List Field → List Val → List (Field × Val)
+  | a :: as, v :: vs => (a, v) :: zipFV as vs
+  | _, _ => []
+
+/-- `setValues`: every attribute's value goes into the field of its name -/
+def setValues (r32 : Nat → Nat) (attrs : List Field) (vals : List Val) : Option (List (String × GoVal)) :=
+  mapOpt (fun av : Field × Val => (reflectTo r32 av.1.ty av.2).map fun g => (av.1.name, g)) (zipFV attrs (restore attrs vals))
+
+def lookupField (n : String) : List (String × GoVal) → Option GoVal
+  | [] => none
+  | (k, g) :: r => if k = n then some g else lookupField n r
+
+/-- the struct behind the instance, fields in declaration order -/
+def structOf (fs : List Field) (res : List (String × GoVal)) : Option (List GoVal) :=
+  mapOpt (fun f => lookupField f.name res) fs
+
+/-- `px.New(T, hash)` through the named-argument dispatch, then `ReflectTo` into a fresh struct; `none` when the hash
+    is not an instance of the init Struct type -/
 def newNamed (r32 : Nat → Nat) (fs : List Field) (ih : List (Val × Val)) : Option (List GoVal) :=
-  if fs.all (attrCheck ih) && ih.all (fun kv => knownKey fs kv.1)
-  then mapOpt (fun f => reflectTo r32 f.ty ((lookupAttr f.name ih).getD .undef)) fs
+  let attrs := attrOrder id fs
+  if namedCheck fs ih
+  then (setValues r32 attrs (trimDefaults attrs (fillFromHash attrs ih))).bind (structOf fs)
   else none
 
-/-- `px.New(T, v₁, …, vₙ)` through the positional dispatch (one argument per attribute), then `ReflectTo` -/
-def newPos (r32 : Nat → Nat) (fvs : List (Field × GoVal)) : Option (List GoVal) :=
-  if fvs.all (fun fv => inst (typeOf fv.1.ty) (fieldVal fv))
-  then mapOpt (fun fv => reflectTo r32 fv.1.ty (fieldVal fv)) fvs
-  else none
+/-- `px.New(T, v₁, …, vₖ)` through the positional dispatch (arguments in attribute order), then `ReflectTo` -/
+def newPos (r32 : Nat → Nat) (fs : List Field) (args : List Val) : Option (List GoVal) :=
+  let attrs := attrOrder id fs
+  if posCheck attrs args then (setValues r32 attrs args).bind (structOf fs) else none
 
-def flatField (f : Field) : Bool := Modelled f.ty && (match f.ty with | .iface => false | _ => true)
+def dfltOK (f : Field) : Bool :=
+  match f.dflt with
+  | none => true
+  | some (.int _) => (match f.ty with | .int _ => true | .uint _ => true | .ptr (.int _) => true | .ptr (.uint _) => true | _ => false)
+  | some (.str _) => (match f.ty with | .string => true | .ptr .string => true | _ => false)
+  | some (.bool _) => (match f.ty with | .bool => true | .ptr .bool => true | _ => false)
+  | some _ => false
+
+def flatField (f : Field) : Bool :=
+  Modelled f.ty && (match f.ty with | .iface => false | _ => true) && dfltOK f &&
+  (match f.dflt with | some d => inst (typeOf f.ty) d | none => true)
 
 end Pcore.Reflect
